@@ -81,7 +81,7 @@ theorem map_if {α β} (f : α → β) (c : Prop) [Decidable c] (a b : List α) 
 theorem toNatBytes_append (a b : List Spec.Byte) : toNatBytes (a ++ b) = toNatBytes a ++ toNatBytes b := by
   simp [toNatBytes]
 
-theorem zeros_char (B X : Nat) (hB : 0 < B) (h1 : 1 ≤ X) (h2 : X < 2 * B) :
+theorem zeros_char (B X : Nat) (_hB : 0 < B) (h1 : 1 ≤ X) (h2 : X < 2 * B) :
     if X ≤ B then (B - X % B) % B = B - X else (B - X % B) % B + X = 2 * B := by
   split
   · rename_i hX
